@@ -174,9 +174,21 @@ class Contract:
                 e = SExc(rc.exc, (), line=line)
                 e.origin = fi.qualname
                 raise RaiseSig(e)
-        # normal outcome
-        for loc in self.modifies_list(oldr):
-            obj, fld = interp.resolve_loc(roots, loc)
+        # normal outcome: havoc the frame -- or the smaller frame of a conditional frame whose condition holds
+        mods = self.modifies_list(oldr)
+        silent = False
+        for cf in self.cond_frames:
+            label, when, cmods = cf[:3]
+            w = when(oldr)
+            if w is True or (w is not False and ctx.decide(w)):
+                mods = list(cmods(oldr) if callable(cmods) else cmods)
+                silent = len(cf) > 3 and cf[3].get("silent", False)  # proved: no event at all under `when`
+                break
+        for loc in mods:
+            try:
+                obj, fld = interp.resolve_loc(roots, loc)
+            except CheckerError:
+                continue  # location does not exist in this state (passes through None)
             interp.havoc(obj, fld)
         result = None
         if self.result is not None:
@@ -185,10 +197,10 @@ class Contract:
         if self.emits is not None:
             for pat in self.emits(oldr, newr, result):
                 materialize_event(interp, roots, pat)
-        else:
+        elif not silent:
             ctx.event("opaque_call", callee=fi.fq)
         eff = self.call_effects if self.call_effects is not None else self.effects
-        for k in (eff or ()):
+        for k in (() if silent else (eff or ())):
             ctx.effect(k, f"via {fi.qualname}", line)
         for c in self.ensures:
             try:
